@@ -284,14 +284,18 @@ fn c06_case(shard: &mut Shard, seed: u64, index: u64) {
     // `capacity` is a sizing hint for the maps, not a bound on the number of keys: decisions that need more evictions than it are drawn too
     let capacity = *rng.pick(&[1usize, 2, 4, 16]);
     let policy = VerifAdmissionPolicy::new(counters, capacity, 2, max_weight);
-    let n_existing = if capacity < 16 && rng.chance(1, 2) { rng.range(5, 9) } else { rng.range(0, 9) };
+    // one decision in 150 starts from well over a thousand light residents and needs (nearly) all of them evicted
+    let crowd = rng.chance(1, 150);
+    let max_weight = if crowd { 1500 } else { max_weight };
+    let policy = if crowd { policy.shutdown(); VerifAdmissionPolicy::new(counters, capacity, 2, max_weight) } else { policy };
+    let n_existing = if crowd { 1500 } else if capacity < 16 && rng.chance(1, 2) { rng.range(5, 9) } else { rng.range(0, 9) };
     let constant_hash = rng.chance(1, 6);
     let hash_of = |key: u64| if constant_hash { 42 } else { key.wrapping_mul(0x9E37_79B9_7F4A_7C15) ^ seed };
     let mut next_id = 1u64;
     let mut setup = J::arr();
     // existing keys: fill without pressure
     for key in 1..=n_existing {
-        let weight = match rng.below(4) { 0 => 1, 1 => (max_weight / 4).max(1), _ => rng.range(1, (max_weight as u64 / 3).max(1)) as i64 };
+        let weight = if crowd { 1 } else { match rng.below(4) { 0 => 1, 1 => (max_weight / 4).max(1), _ => rng.range(1, (max_weight as u64 / 3).max(1)) as i64 } };
         if policy.weight_used() + weight > max_weight { break; }
         let status = policy.maybe_add(key, next_id, hash_of(key), weight, &|_k| {});
         if status != CommandStatus::Accepted {
@@ -299,7 +303,7 @@ fn c06_case(shard: &mut Shard, seed: u64, index: u64) {
         }
         next_id += 1;
         // frequency profile set directly: 0..20 accesses (saturation at 15/16), ties on purpose
-        let accesses = *rng.pick(&[0u64, 0, 1, 1, 2, 3, 3, 5, 15, 16, 20]);
+        let accesses = if crowd { 0 } else { *rng.pick(&[0u64, 0, 1, 1, 2, 3, 3, 5, 15, 16, 20]) };
         if accesses > 0 { for _ in 0..accesses { policy.accept(vec![hash_of(key)]); if !drain_accesses(&policy, applied_base) { break; } } }
         setup.push(J::obj().with("key", J::Int(key as i128)).with("weight", J::Int(weight as i128)).with("accesses", J::Int(accesses as i128)));
     }
@@ -321,7 +325,8 @@ fn c06_case(shard: &mut Shard, seed: u64, index: u64) {
     }
     let _ = r.take_events();
     let free = max_weight - policy.weight_used();
-    let weight = match rng.below(8) { 0 => free.max(1), 1 => (free + 1).max(1), 2 => (free - 1).max(1), 3 => max_weight, 4 => max_weight + 1, 5 => 1, 6 => i64::MAX / 2, _ => rng.range(1, max_weight as u64) as i64 };
+    if crowd { shard.counts.inc("decisions_among_more_than_a_thousand_residents"); }
+    let weight = if crowd { *rng.pick(&[max_weight, max_weight - 100, 1200]) } else { match rng.below(8) { 0 => free.max(1), 1 => (free + 1).max(1), 2 => (free - 1).max(1), 3 => max_weight, 4 => max_weight + 1, 5 => 1, 6 => i64::MAX / 2, _ => rng.range(1, max_weight as u64) as i64 } };
     // independent observation before the decision: charged keys, their estimates, the total
     let charged_before = policy.charged();
     let used_before = policy.weight_used();
